@@ -1046,7 +1046,7 @@ class Generator:
                 pre = body
             elif sec["cmd"] == "body-end":
                 post = body
-            elif sec["cmd"] in ("loop", "loop-start", "loop-end"):
+            elif sec["cmd"] in ("loop", "loop-start", "loop-end", "desugar-for"):
                 # loops inside the slice, numbered in source order
                 sl_loops = []
                 q = lo
@@ -1063,7 +1063,9 @@ class Generator:
                 if n < 1 or n > len(sl_loops):
                     raise LostAnchor("%s: slice %s has %d loops, directive names loop %d" % (file, name, len(sl_loops), n))
                 kw, lo_, hi_ = sl_loops[n - 1]
-                if sec["cmd"] == "loop":
+                if sec["cmd"] == "desugar-for":
+                    desugar_for(src, sl_loops[n - 1], n, sec["arg"].split()[1], ed, rules, "%s :: slice %s" % (file, name))
+                elif sec["cmd"] == "loop":
                     if am.group(2):
                         q = kw + 1
                         while q < lo_ and not src.is_id(q, "in"):
@@ -1134,6 +1136,17 @@ class Generator:
                 rules["R13"] = rules.get("R13", 0) + 1
             else:
                 raise SpecError("%s: section %s not supported in //@slice" % (rel, sec["cmd"]))
+        if self.probe:
+            # vacuity probes at the start of every loop body inside the slice
+            q = lo
+            while q < hi:
+                if s[q].kind == IDENT and s[q].text in ("while", "loop", "for") and not src.is_p(q - 1, "."):
+                    j2 = q + 1
+                    while j2 < hi and not src.is_p(j2, "{"):
+                        j2 = src.skip_group(j2) if s[j2].text in "([" else j2 + 1
+                    if j2 < hi:
+                        ed.insert(s[j2].end, "\nproof { assert(false); } // VACUITY-PROBE\n", 0)
+                q += 1
         if not decl:
             raise SpecError("%s:%d: //@slice needs a //@decl section" % (rel, lineno))
         g0 = self.out.lineno
